@@ -5,6 +5,7 @@ package patch
 import (
 	"bytes"
 	"fmt"
+	"io"
 	"runtime/debug"
 	"strings"
 	"sync"
@@ -617,6 +618,64 @@ func TestC14(t *testing.T) {
 		}
 	}
 
+	// ---- (2e) origin placeholders that are not plain functions: an instantiation of a generic function (its code pointer
+	//           is a wrapper that forwards to a body shared with other instantiations) and a function that only forwards
+	//           to another one. The relocated head goes into the placeholder's OWN body; what it forwards to is somebody
+	//           else's code and stays byte-identical
+	if !light {
+		phs := []struct {
+			name string
+			ph   interface{}
+			code uintptr
+		}{
+			{"generic instantiation", &c14OriginInt, vmon.FuncCodePtr(c14OriginInt)},
+			{"forwarding function", &c14OriginFwd, vmon.FuncCodePtr(c14OriginFwd)},
+		}
+		for pi, ph := range phs {
+			var own *popFunc
+			for i := range funcs {
+				if funcs[i].Entry == ph.code {
+					own = &funcs[i]
+				}
+			}
+			if own == nil {
+				rep.Note("placeholder-"+ph.name, "extent of the placeholder not found in the population")
+				continue
+			}
+			tf := popFunc{Name: "c14PhTarget", Entry: vmon.FuncCodePtr([]func(int) int{c14PhTarget0, c14PhTarget1}[pi])}
+			rep.Journal(map[string]interface{}{"part": "placeholder-kind", "kind": ph.name, "target": tf.Name})
+			var perr error
+			func() {
+				defer func() {
+					if r := recover(); r != nil {
+						perr = fmt.Errorf("panic: %v", r)
+					}
+				}()
+				_, perr = PtrTrampoline(tf.Entry, c14Repl, ph.ph)
+			}()
+			c14ForgetPatch(tf.Entry)
+			rep.Eval(1)
+			c := map[string]interface{}{"placeholder": ph.name, "target": tf.Name}
+			outside := img.DiffOutside([]vmon.Range{{Start: own.Entry, End: own.End}})
+			if len(outside) != 0 {
+				rep.Violate("C14/placeholder-written-outside-its-body", fmt.Sprintf("origin placeholder %s (%s [%#x,%#x)) for %s: the image changed at %v, outside the placeholder's own body", ph.name, own.Name, own.Entry, own.End, tf.Name, outside), c)
+			} else if perr == nil && len(img.Diff()) == 0 {
+				rep.Violate("C14/placeholder-not-written", fmt.Sprintf("origin placeholder %s for %s: accepted, but no byte of the placeholder changed", ph.name, tf.Name), c)
+			}
+			rep.Class(fmt.Sprintf("placeholder-kind/%s/refused=%v", ph.name, perr != nil))
+			if perr != nil {
+				rep.Note("placeholder-kind-refusal:"+ph.name, perr.Error())
+			}
+			// put the placeholder's bytes back (pristine image) for the parts that follow
+			if d := img.Diff(); len(d) != 0 {
+				memory.WriteTo(own.Entry, img.Pristine(own.Entry, int(own.End-own.Entry)))
+			}
+			if d := img.Diff(); len(d) != 0 {
+				rep.Note("placeholder-"+ph.name, fmt.Sprintf("image not pristine after putting the placeholder back: %v", d))
+			}
+		}
+	}
+
 	// ---- (2c) a padded placeholder that the first trampoline fills to its last padding byte, followed by a neighbour
 	//           without the usual prologue, then handed to a target that needs more room: refused, neighbour intact
 	if !light {
@@ -889,4 +948,45 @@ func firstDiff(a, b []byte) int {
 		}
 	}
 	return -1
+}
+
+// origin placeholders of unusual kinds
+//
+//go:noinline
+func c14OriginG[T any](a T) T {
+	fmt.Fprintln(io.Discard, "only a placeholder, never called")
+	fmt.Fprintln(io.Discard, "only a placeholder, never called")
+	fmt.Fprintln(io.Discard, "only a placeholder, never called")
+	return a
+}
+
+var c14OriginInt = c14OriginG[int]
+
+//go:noinline
+func c14OriginInner(a int) int {
+	fmt.Fprintln(io.Discard, "the function the forwarding placeholder calls")
+	fmt.Fprintln(io.Discard, "the function the forwarding placeholder calls")
+	return a + 1
+}
+
+//go:noinline
+func c14OriginFwdFn(a int) int {
+	x := c14OriginInner(a)
+	fmt.Fprintln(io.Discard, "forwarding placeholder")
+	fmt.Fprintln(io.Discard, "forwarding placeholder")
+	return x
+}
+
+var c14OriginFwd = c14OriginFwdFn
+
+//go:noinline
+func c14PhTarget0(a int) int {
+	fmt.Fprintln(io.Discard, "target of the generic placeholder")
+	return a * 3
+}
+
+//go:noinline
+func c14PhTarget1(a int) int {
+	fmt.Fprintln(io.Discard, "target of the forwarding placeholder")
+	return a * 5
 }
